@@ -61,8 +61,13 @@ pub fn make_server<C: Catalog>(catalog: Arc<C>, cfg: &ServerCfg) -> Server<C> {
     if let Some(r) = &cfg.rrl {
         let mut p = RrlParams::new(r.noerror, r.nxdomain, r.error, r.window).expect("rrl params");
         p.set_slip(r.slip);
-        p.set_ipv4_prefix_len(r.v4_prefix).expect("v4 prefix");
-        p.set_ipv6_prefix_len(r.v6_prefix).expect("v6 prefix");
+        // 255 = leave the documented default (/24 and /56) untouched
+        if r.v4_prefix != 255 {
+            p.set_ipv4_prefix_len(r.v4_prefix).expect("v4 prefix");
+        }
+        if r.v6_prefix != 255 {
+            p.set_ipv6_prefix_len(r.v6_prefix).expect("v6 prefix");
+        }
         p.set_size(r.size).expect("rrl size");
         s.set_rrl_params(Some(p));
     }
